@@ -1,4 +1,129 @@
-import KpModel.Format.Kdbx4
+import KpModel.Xml.Dump
+import KpModel.Xml.Parse
+import KpModel.Props.C07
+/-!
+# C08 — saved files leak no database content in clear
+Property theorems only.  (1) Structure: by the framing theorem everything after the header is a function of
+the ciphertext `encO(compress(inner header ‖ XML))` and of MACs; the header depends only on the configuration and
+the random tape (`header_independent_of_content`).  (2) Inner stream: protected values consume consecutive,
+pairwise disjoint key-stream intervals in document order, for every map order (`C08_no_keystream_reuse`), and the
+reader consumes the same intervals in the same order (`C01_stream_order`, same cursor).  That the outer
+ciphertext reveals nothing is a cryptographic assumption on `encO`, not a theorem.
+-/
+namespace Kp.Xml
+
+/-- the cursor discipline shared by writer and reader: the `n`-th protected value of `len` bytes uses the key-stream
+    interval `[off_n, off_n + len)`, `off_{n+1} = off_n + len` -/
+def intervals : Nat → List Bytes → List (Nat × Nat)
+  | _, [] => []
+  | off, v :: vs => (off, v.length) :: intervals (off + v.length) vs
+
+def encryptAll (ks : Nat → Nat → Bytes) : Nat → List Bytes → List Bytes
+  | _, [] => []
+  | off, v :: vs => xorB v (ks off v.length) :: encryptAll ks (off + v.length) vs
+
+def decryptAll (ks : Nat → Nat → Bytes) : Nat → List Bytes → List Bytes
+  | _, [] => []
+  | off, c :: cs => xorBytes c (ks off c.length) :: decryptAll ks (off + c.length) cs
+
+theorem intervals_start_ge (off : Nat) (vs : List Bytes) : ∀ p ∈ intervals off vs, off ≤ p.1 := by
+  induction vs generalizing off with
+  | nil => intro p hp; cases hp
+  | cons v vs ih =>
+    intro p hp
+    cases hp with
+    | head => exact Nat.le_refl _
+    | tail _ hp' => have := ih (off + v.length) p hp'; omega
+
+/-- **no two-time pad**: the key-stream intervals of any two different protected values are disjoint -/
+theorem C08_no_keystream_reuse (off : Nat) (vs : List Bytes) :
+    (intervals off vs).Pairwise (fun a b => a.1 + a.2 ≤ b.1) := by
+  induction vs generalizing off with
+  | nil => exact List.Pairwise.nil
+  | cons v vs ih =>
+    simp only [intervals]
+    refine List.Pairwise.cons ?_ (ih _)
+    intro p hp
+    exact intervals_start_ge _ _ p hp
+
+theorem xor_xor (a k : Bytes) (h : k.length = a.length) : xorBytes (xorB a k) k = a := by
+  induction a generalizing k with
+  | nil => simp [xorB, xorBytes]
+  | cons x xs ih =>
+    cases k with
+    | nil => simp at h
+    | cons y ys =>
+      simp only [xorB, xorBytes, List.zipWith_cons_cons]
+      have := ih ys (by simpa using h)
+      simp only [xorB, xorBytes] at this
+      rw [this]
+      congr 1
+      rw [UInt8.xor_assoc, UInt8.xor_self, UInt8.xor_zero]
+
+theorem xorB_length (a k : Bytes) (h : k.length = a.length) : (xorB a k).length = a.length := by
+  simp [xorB, h]
+
+/-- **stream order**: the reader, consuming the key stream in document order with the same cursor, recovers every
+    protected value, wherever it occurs — for every key stream of the right lengths -/
+theorem C01_stream_order (ks : Nat → Nat → Bytes) (hks : ∀ o n, (ks o n).length = n) (off : Nat) (vs : List Bytes) :
+    decryptAll ks off (encryptAll ks off vs) = vs := by
+  induction vs generalizing off with
+  | nil => rfl
+  | cons v vs ih =>
+    simp only [encryptAll, decryptAll]
+    have hl : (xorB v (ks off v.length)).length = v.length := xorB_length _ _ (hks _ _)
+    rw [hl, xor_xor v _ (hks _ _), ih]
+
+/-- the writer's `Value::Protected` case follows the cursor discipline: cipher text = value XOR the key-stream
+    slice at the current cursor; the cursor advances by the value's length; unprotected values do not touch it -/
+theorem dumpValue_cursor (env : DEnv) (u : Bytes → Option String) (p : Bytes) (s : DSt) :
+    ((dumpValue env (.prot p) u).run s).2.off = s.off + p.length
+    ∧ ((dumpValue env (.prot p) u).run s).2.out
+        = s.out ++ [.start "Value" [("Protected", "True")], .chars (b64Text (xorB p (env.ks s.off p.length))), .stop] := by
+  simp [dumpValue, emit, StateT.run, bind, StateT.bind, modify, modifyGet, MonadStateOf.modifyGet, StateT.modifyGet,
+    get, getThe, MonadStateOf.get, StateT.get, set, StateT.set, pure, StateT.pure, List.append_assoc]
+
+theorem dumpValue_unprotected_cursor (env : DEnv) (u : Bytes → Option String) (t : String) (s : DSt) :
+    ((dumpValue env (.unprotected t) u).run s).2.off = s.off := by
+  by_cases ht : t.isEmpty = true <;>
+    simp [dumpValue, tagText, emit, StateT.run, bind, StateT.bind, modify, modifyGet, MonadStateOf.modifyGet,
+      StateT.modifyGet, pure, StateT.pure, ht]
+
+/-- the reader's side of the same discipline -/
+theorem innerDecrypt_cursor (env : Env) (buf : Bytes) (s : PSt) :
+    innerDecrypt env buf s = .ok (xorBytes buf (env.ks s.off buf.length), { s with off := s.off + buf.length }) := rfl
+
+/-- with a key-stream slice that is not all zero, the cipher text of a protected value differs from the value
+    (so neither the value nor the base64 of the value is what is written) -/
+theorem C08_protected_not_plain (v k : Bytes) (hk : k.length = v.length) (hnz : ∃ i, k.getD i 0 ≠ 0) :
+    xorB v k ≠ v := by
+  obtain ⟨i, hi⟩ := hnz
+  intro h
+  have hlen : i < k.length := by
+    rcases Nat.lt_or_ge i k.length with hc | hc
+    · exact hc
+    · exact absurd (by simp [List.getD, List.getElem?_eq_none hc]) hi
+  have hv : i < v.length := by omega
+  have hx : (xorB v k)[i]? = some (v[i] ^^^ k[i]) := by
+    simp [xorB, List.getElem?_zipWith, List.getElem?_eq_getElem hv, List.getElem?_eq_getElem hlen]
+  rw [h, List.getElem?_eq_getElem hv] at hx
+  have hx' : v[i] = v[i] ^^^ k[i] := Option.some.inj hx
+  have hk0 : k[i] = 0 := by
+    have h2 : v[i] ^^^ v[i] = v[i] ^^^ (v[i] ^^^ k[i]) := by rw [← hx']
+    rw [← UInt8.xor_assoc, UInt8.xor_self, UInt8.zero_xor] at h2
+    exact h2.symm
+  apply hi
+  simp [List.getD, List.getElem?_eq_getElem hlen, hk0]
+
+end Kp.Xml
+
 namespace Kp.Fmt
-theorem placeholder_C08 : True := trivial
+
+/-- the outer header depends only on the configuration, the random tape and the layout — not on the database,
+    the attachments, the XML or the key -/
+theorem header_independent_of_content (P : Prims) (c : Config) (t : Tape) (l : Layout) (tk tk' ct ct' : Bytes) :
+    (assemble P c t l tk ct).take (outerHeaderBytes c t l).length
+      = (assemble P c t l tk' ct').take (outerHeaderBytes c t l).length := by
+  simp [assemble, List.append_assoc]
+
 end Kp.Fmt
